@@ -1,11 +1,67 @@
 
 val negb : bool -> bool
 
+type nat =
+| O
+| S of nat
 
+val option_map : ('a1 -> 'a2) -> 'a1 option -> 'a2 option
+
+val fst : ('a1 * 'a2) -> 'a1
+
+val snd : ('a1 * 'a2) -> 'a2
+
+val length : 'a1 list -> nat
+
+val app : 'a1 list -> 'a1 list -> 'a1 list
+
+type comparison =
+| Eq
+| Lt
+| Gt
+
+val compOpp : comparison -> comparison
+
+val add : nat -> nat -> nat
+
+val sub : nat -> nat -> nat
+
+module Nat :
+ sig
+  val eqb : nat -> nat -> bool
+
+  val leb : nat -> nat -> bool
+
+  val ltb : nat -> nat -> bool
+ end
+
+val in_dec : ('a1 -> 'a1 -> bool) -> 'a1 -> 'a1 list -> bool
+
+val removelast : 'a1 list -> 'a1 list
+
+val rev : 'a1 list -> 'a1 list
+
+val map : ('a1 -> 'a2) -> 'a1 list -> 'a2 list
+
+val flat_map : ('a1 -> 'a2 list) -> 'a1 list -> 'a2 list
+
+val fold_left : ('a1 -> 'a2 -> 'a1) -> 'a2 list -> 'a1 -> 'a1
+
+val fold_right : ('a2 -> 'a1 -> 'a1) -> 'a1 -> 'a2 list -> 'a1
 
 val existsb : ('a1 -> bool) -> 'a1 list -> bool
 
+val forallb : ('a1 -> bool) -> 'a1 list -> bool
+
 val filter : ('a1 -> bool) -> 'a1 list -> 'a1 list
+
+val find : ('a1 -> bool) -> 'a1 list -> 'a1 option
+
+val firstn : nat -> 'a1 list -> 'a1 list
+
+val skipn : nat -> 'a1 list -> 'a1 list
+
+val nodup : ('a1 -> 'a1 -> bool) -> 'a1 list -> 'a1 list
 
 type positive =
 | XI of positive
@@ -16,7 +72,20 @@ type n =
 | N0
 | Npos of positive
 
+type z =
+| Z0
+| Zpos of positive
+| Zneg of positive
+
 module Pos :
+ sig
+  type mask =
+  | IsNul
+  | IsPos of positive
+  | IsNeg
+ end
+
+module Coq_Pos :
  sig
   val succ : positive -> positive
 
@@ -24,18 +93,77 @@ module Pos :
 
   val add_carry : positive -> positive -> positive
 
+  val pred_double : positive -> positive
+
+  type mask = Pos.mask =
+  | IsNul
+  | IsPos of positive
+  | IsNeg
+
+  val succ_double_mask : mask -> mask
+
+  val double_mask : mask -> mask
+
+  val double_pred_mask : positive -> mask
+
+  val sub_mask : positive -> positive -> mask
+
+  val sub_mask_carry : positive -> positive -> mask
+
   val mul : positive -> positive -> positive
 
+  val size : positive -> positive
+
+  val compare_cont : comparison -> positive -> positive -> comparison
+
+  val compare : positive -> positive -> comparison
+
   val eqb : positive -> positive -> bool
+
+  val iter_op : ('a1 -> 'a1 -> 'a1) -> positive -> 'a1 -> 'a1
+
+  val to_nat : positive -> nat
+
+  val of_succ_nat : nat -> positive
+
+  val eq_dec : positive -> positive -> bool
  end
 
 module N :
  sig
+  val succ_double : n -> n
+
+  val double : n -> n
+
   val add : n -> n -> n
+
+  val sub : n -> n -> n
 
   val mul : n -> n -> n
 
+  val compare : n -> n -> comparison
+
   val eqb : n -> n -> bool
+
+  val leb : n -> n -> bool
+
+  val ltb : n -> n -> bool
+
+  val size : n -> n
+
+  val pos_div_eucl : positive -> n -> n * n
+
+  val div_eucl : n -> n -> n * n
+
+  val div : n -> n -> n
+
+  val modulo : n -> n -> n
+
+  val to_nat : n -> nat
+
+  val of_nat : nat -> n
+
+  val eq_dec : n -> n -> bool
  end
 
 type ascii =
@@ -44,6 +172,39 @@ type ascii =
 val n_of_digits : bool list -> n
 
 val n_of_ascii : ascii -> n
+
+module Z :
+ sig
+  val double : z -> z
+
+  val succ_double : z -> z
+
+  val pred_double : z -> z
+
+  val pos_sub : positive -> positive -> z
+
+  val add : z -> z -> z
+
+  val opp : z -> z
+
+  val sub : z -> z -> z
+
+  val compare : z -> z -> comparison
+
+  val leb : z -> z -> bool
+
+  val ltb : z -> z -> bool
+
+  val eqb : z -> z -> bool
+
+  val abs_N : z -> n
+
+  val to_nat : z -> nat
+
+  val of_nat : nat -> z
+
+  val of_N : n -> z
+ end
 
 type string =
 | EmptyString
@@ -55,28 +216,447 @@ val b : string -> str
 
 val eqb_str : str -> str -> bool
 
+val str_eq_dec : str -> str -> bool
+
+val prefixb : str -> str -> bool
+
+val suffixb : str -> str -> bool
+
+val index_byte : n -> str -> nat option
+
+val last_index_byte : n -> str -> nat option
+
 val split_on : n -> str -> str list
 
-val c_semi : n
+val join : str -> str list -> str
+
+val ltb_str : str -> str -> bool
+
+val leb_str : str -> str -> bool
+
+val c_slash : n
+
+val c_bslash : n
+
+val c_lbr : n
+
+val c_rbr : n
+
+val c_eq : n
 
 val c_comma : n
 
-type md = { md_name : str; md_pref : str; md_groups : str }
+val c_star : n
 
-val nonempty : str -> bool
+val insert_sorted : ('a1 -> 'a1 -> bool) -> 'a1 -> 'a1 list -> 'a1 list
 
-val has_identity : md -> bool
+val isort : ('a1 -> 'a1 -> bool) -> 'a1 list -> 'a1 list
 
-val temporary_evaluate : str -> str -> bool
+type 'a outcome =
+| Ok of 'a
+| Err of n
+| Panic of n
 
-val set_gate : str -> md -> bool
+val bind : 'a1 outcome -> ('a1 -> 'a2 outcome) -> 'a2 outcome
 
-val get_groups : md -> str list
+val is_panic : 'a1 outcome -> bool
 
-val default_roc : str
+val w_slice : n
 
-val roc_group : str -> str
+val w_index : n
 
-val report_targets : bool -> str -> str list -> str list -> str list
+val w_nil : n
 
-val get_all_targets : bool -> str -> md -> str list -> str list
+val w_regexp : n
+
+val w_fuel : n
+
+val c_unknown : n
+
+val c_invalid : n
+
+val c_notfound : n
+
+val c_internal : n
+
+val c_some : n
+
+val zlen : str -> z
+
+val slice : str -> z -> z -> str outcome
+
+val zindex : n -> str -> z
+
+val zlast_index : n -> str -> z
+
+val has_byte : n -> str -> bool
+
+val replace_first : str -> str -> str -> str
+
+val replace_all_aux : str -> str -> nat -> str -> str
+
+val replace_all : str -> str -> str -> str
+
+val c_nl : n
+
+type elem = { e_name : str; e_keys : (str * str) list }
+
+type gpath = { p_target : str; p_elem : elem option list; p_element : str list }
+
+type scalar =
+| SStr of str
+| SAscii of str
+| SInt of z
+| SUint of n
+| SBool of bool
+| SBytes of str
+| SDecimal of (z * n) option
+| SFloat of bool
+| SOther
+
+type tval =
+| TScalar of scalar
+| TJson of str
+| TLeaflist of scalar option list
+
+type plugin_answer =
+| PErr of n
+| PPaths of str list
+
+type update = { u_path : gpath option; u_val : tval option;
+                u_plugin : plugin_answer }
+
+type ext_payload =
+| XBad
+| XStrategy of bool
+| XOverrides of (str * (str * str) option) list
+
+type extension =
+| ERegistered of (n * ext_payload) option
+| EOther
+
+type rwpath = { rw_path : str; rw_iskey : bool; rw_attr : str }
+
+type plugin = { pl_type : str; pl_version : str; pl_rw : rwpath list }
+
+type target = { tg_id : str; tg_type : str; tg_version : str }
+
+type nval = { nv_type : n; nv_blen : n; nv_opts : z list; nv_str : str option }
+
+type stored = { sv_path : str; sv_deleted : bool; sv_val : nval }
+
+type config = { cf_id : str; cf_values : stored list }
+
+type env = { en_topo : target list; en_plugins : plugin list;
+             en_size_limit : n }
+
+type state = config list
+
+val pair_leb : (str * str) -> (str * str) -> bool
+
+val safe_string : n -> str -> str
+
+val str_keys : (str * str) list -> str
+
+val str_path_elem : elem option list -> str outcome
+
+val root : str
+
+val str_path : gpath option -> str outcome
+
+val index_matches_aux : str option -> str -> str list
+
+val index_matches : str -> str list
+
+val remove_indices : str -> str
+
+val anonymize_match : str -> str
+
+val anonymize_indices : str -> str
+
+val extract_one : str -> (str * str) outcome
+
+val extract_all : str list -> (str * str) list outcome
+
+val extract_index_names : str -> (str * str) list outcome
+
+val last_elem : 'a1 list -> 'a1 outcome
+
+val lookup_rw : str -> rwpath list -> rwpath option
+
+val find_path_from_model :
+  str -> rwpath list -> bool -> (bool * rwpath option) outcome
+
+val is_alnum : n -> bool
+
+val index_char_ok : n -> bool
+
+val index_value_ok : str -> bool
+
+val get_parent_path : str -> str outcome
+
+val check_key_value : str -> rwpath -> nval -> unit outcome
+
+val path_char_ok : n -> bool
+
+val is_path_valid : str -> bool
+
+val json_base_path : str -> str outcome
+
+val mag_len : n -> n
+
+val zsign_opt : z -> z
+
+val dec_digits_pos : nat -> n -> str -> str
+
+val dec_n : n -> str
+
+val dec_z : z -> str
+
+val vt_string : n
+
+val vt_int : n
+
+val vt_uint : n
+
+val vt_bool : n
+
+val vt_decimal : n
+
+val vt_float : n
+
+val vt_bytes : n
+
+val vt_ll_string : n
+
+val vt_ll_int : n
+
+val vt_ll_uint : n
+
+val vt_ll_bool : n
+
+val vt_ll_decimal : n
+
+val vt_ll_float : n
+
+val vt_ll_bytes : n
+
+val lenN : str -> n
+
+val sumN : n list -> n
+
+type ll_acc = { la_str : str list; la_int : z list; la_uint : n list;
+                la_bool : bool list; la_bytes : str list; la_dec : z list;
+                la_float : nat }
+
+val la_empty : ll_acc
+
+val leaf_list_collect : scalar option list -> ll_acc -> ll_acc outcome
+
+val has_nil_elem : scalar option list -> bool
+
+val mk_nval : n -> n -> z list -> str option -> nval
+
+val handle_leaf_list : scalar option list -> nval outcome
+
+val to_native : tval option -> nval outcome
+
+val run_slices : nat -> z list -> z -> z -> unit outcome
+
+val take_pairs : z list -> z list
+
+val ll_bytes_walk : nat -> z -> z -> z list -> unit outcome
+
+val leaf_guard : nval -> unit outcome
+
+val next_token : bool -> bool -> str -> str * str
+
+val strip_slash : str -> str
+
+val split_path_aux : nat -> str -> str list
+
+val split_path : str -> str list
+
+val key_loop : nat -> str -> unit outcome
+
+val tree_guard_aux : nat -> str -> unit outcome
+
+val tree_guard : str -> unit outcome
+
+val is_meta : n -> bool
+
+val quote_meta : str -> str
+
+val legal_class : str
+
+val wildcard_regexp : str -> bool -> str
+
+type tok =
+| TLit of n
+| TAny
+| TLegal
+
+type rend =
+| EndExact
+| EndOpen
+| EndBoundary
+
+val re_atoms : nat -> str -> (tok list * rend) option
+
+val must_compile : str -> (tok list * rend) outcome
+
+val legal_char : n -> bool
+
+val re_match : tok list -> rend -> str -> bool
+
+val extract_ext : n -> extension list -> ext_payload option outcome
+
+val id_strategy : n
+
+val id_overrides : n
+
+val get_overrides : extension list -> (str * (str * str) option) list outcome
+
+val get_strategy : extension list -> bool outcome
+
+val find_target : env -> str -> target option
+
+val find_plugin : env -> str -> str -> plugin option
+
+val lookup_override :
+  (str * (str * str) option) list -> str -> (str * str) option option
+
+val resolve_target :
+  env -> (str * (str * str) option) list -> str -> plugin outcome
+
+type set_req = { s_prefix : gpath option; s_delete : gpath option list;
+                 s_replace : update option list;
+                 s_update : update option list; s_ext : extension list }
+
+val path_target : gpath option -> str
+
+val full_path : gpath option -> gpath option -> str outcome
+
+val do_delete : rwpath list -> gpath option -> gpath option -> str outcome
+
+val do_update :
+  rwpath list -> gpath option -> update option -> str list outcome
+
+type tinfo = { ti_id : str; ti_plugin : plugin; ti_updates : str list;
+               ti_removes : str list }
+
+val set_target_id : gpath option -> str -> str
+
+val get_tinfo :
+  env -> (str * (str * str) option) list -> tinfo list -> str ->
+  (tinfo * tinfo list) outcome
+
+val put_tinfo : tinfo -> tinfo list -> tinfo list
+
+val set_deletes :
+  env -> (str * (str * str) option) list -> gpath option -> gpath option list
+  -> tinfo list -> tinfo list outcome
+
+val set_updates :
+  env -> (str * (str * str) option) list -> gpath option -> update option
+  list -> tinfo list -> tinfo list outcome
+
+val dedup_count : str list -> n
+
+val set_handler : env -> set_req -> bool outcome
+
+type get_req = { g_prefix : gpath option; g_path : gpath option list;
+                 g_encoding : n; g_type : n; g_ext : extension list }
+
+val enc_json : n
+
+val enc_proto : n
+
+val enc_json_ietf : n
+
+val c_dash : n
+
+val config_id : str -> str -> str -> str
+
+val find_config : state -> str -> str -> str -> config option
+
+val add_target :
+  env -> state -> (str * (str * str) option) list -> str -> config outcome
+
+val forall_guard : ('a1 -> unit outcome) -> 'a1 list -> unit outcome
+
+val get_update : config -> n -> str -> bool outcome
+
+val trim_slash : str -> str
+
+val prefix_has_elems : gpath option -> bool
+
+val get_paths :
+  env -> state -> (str * (str * str) option) list -> gpath option -> gpath
+  option list -> (str * config) list -> (str * str) list -> ((str * config)
+  list * (str * str) list) option outcome
+
+val get_updates :
+  (str * config) list -> n -> (str * str) list -> bool -> bool outcome
+
+val get_handler : env -> state -> get_req -> bool outcome
+
+type sub_msg =
+| MSubscribe of gpath option * gpath option list
+| MPoll
+| MOther
+
+val subscribe_step : bool -> sub_msg -> bool outcome
+
+val subscribe_handler : bool -> sub_msg list -> bool outcome
+
+type lsq_req = { l_target : str; l_type : str; l_version : str;
+                 l_ctx : set_req option }
+
+val lsq_updates :
+  rwpath list -> gpath option -> update option list -> str list -> str list
+  outcome
+
+val lsq_deletes :
+  rwpath list -> gpath option -> gpath option list -> str list -> str list
+  outcome
+
+val lsq_merge : stored list -> str list -> str list -> stored list
+
+val below_deleted : str list -> str -> bool
+
+val prune : stored list -> stored list
+
+val build_tree_guard : stored list -> unit outcome
+
+val lsq_handler : env -> state -> lsq_req -> bool outcome
+
+val capabilities_handler : bool outcome
+
+val list_models_handler : bool outcome
+
+val rollback_handler : n -> bool outcome
+
+val admin_store_handler : bool outcome
+
+val elems_ok : gpath -> bool
+
+val opath_ok : gpath option -> bool
+
+val scalar_ok : scalar -> bool
+
+val tval_ok : tval -> bool
+
+val update_ok : update option -> bool
+
+val ext_ok : extension -> bool
+
+val set_wire_ok : set_req -> bool
+
+val get_wire_ok : get_req -> bool
+
+val lsq_wire_ok : lsq_req -> bool
+
+val stored_ok : stored -> bool
+
+val state_ok : state -> bool
